@@ -422,7 +422,7 @@ static int op_replylog(int argc, char **argv, FILE *out) {
     return 1;
 }
 
-/* fticks <mode> <key|.> <reporting 1|2> <accept 0|1> <user> <station> <visinst|.>  -> hex of the F-Ticks line */
+/* fticks <mode> <key|.> <reporting 1|2> <accept 0|1> <user> <station> <visinst|.> [orig=<hex>]  -> hex of the F-Ticks line */
 static int op_fticks(int argc, char **argv, FILE *out) {
     struct clsrvconf cconf;
     struct client cl;
@@ -430,9 +430,11 @@ static int op_fticks(int argc, char **argv, FILE *out) {
     struct radmsg *msg, *rqmsg;
     uint8_t auth[16] = {0};
     struct options saved = options;
-    if (argc != 7)
+    if (argc != 7 && !(argc == 8 && !strncmp(argv[7], "orig=", 5)))
         return 0;
     memset(&cconf, 0, sizeof(cconf)); memset(&cl, 0, sizeof(cl)); memset(&rq, 0, sizeof(rq));
+    if (argc == 8) /* the name the client sent, kept by rewriteusername() for the way back: raw octets, nothing of it belongs in a record */
+        rq.origusername = hxstr(argv[7] + 5);
     cconf.name = "cliX"; cconf.fticks_viscountry = "XX"; cconf.fticks_visinst = optstr(argv[6]);
     cl.conf = &cconf;
     options.fticks_mac = atoi(argv[0]);
@@ -448,7 +450,7 @@ static int op_fticks(int argc, char **argv, FILE *out) {
     fticks_log(&options, &cl, msg, &rq);
     put_captured(out);
     radmsg_free(msg); radmsg_free(rqmsg);
-    free(options.fticks_key); free(cconf.fticks_visinst);
+    free(options.fticks_key); free(cconf.fticks_visinst); free(rq.origusername);
     options = saved;
     return 1;
 }
@@ -1679,7 +1681,8 @@ static int op_udpsend(int argc, char **argv, FILE *out) {
         wclconf[nwclients] = h_udp_last_from->conf;
         nwclients++;
     }
-    fprintf(out, "udp ret=%d created=%ld c%d", h_udp_last_ret, h_udp_last_created_off, k);
+    fprintf(out, "udp ret=%d created=%ld c%d blk:%s", h_udp_last_ret, h_udp_last_created_off, k,
+            h_udp_last_from && h_udp_last_from->conf ? h_udp_last_from->conf->name : "-"); /* (the client block it was attributed to) */
     ord_before = 0;
     (void)ord_before;
     for (e = list_first(srvconfs); e; e = list_next(e)) {
